@@ -55,6 +55,8 @@
 // redirected to a counting wrapper around the real function for this TU.
 //
 // usage: mpirun -np h c18_gluon SESSION_FILE RESULT_FILE [threads]
+#include "e4_pace.h" // timing-only shim, must precede every Galois header
+
 #include <cstddef>
 #include <cstdint>
 #include "galois/runtime/DataCommMode.h"
@@ -70,6 +72,8 @@ DataCommMode verif_logged_get_data_mode(size_t sel, size_t tot) {
 #include "galois/graphs/GluonSubstrate.h"
 #undef get_data_mode
 #include "galois/runtime/SyncStructures.h"
+#define E4_PACE_IMPL
+#include "e4_pace.h"
 
 #include <atomic>
 
